@@ -186,7 +186,17 @@ let pr_event (e : event) : string =
   | EResize a -> "Z" ^ s a
   | EMemDrop -> "M"
 
-let run_case (oc : out_channel) (line : string) : unit =
+(* the list specification's prediction for a step (Track.spec_track), rendered as Track.track_line *)
+let pr_alen = function Some a -> string_of_int (List.length a.a_xs) | None -> "-"
+let pr_asnap = function Some a -> "[" ^ pr_list string_of_n "," a.a_xs ^ "]" | None -> "-"
+let pr_track = function
+  | None -> "-"
+  | Some t ->
+      Printf.sprintf "out=%s pk=%s ret=%s len=%s snap=%s ev=%s"
+        (string_of_n t.t_out) (string_of_n t.t_pk) (pr_list string_of_n "," t.t_ret)
+        (pr_list pr_alen "," t.t_st) (pr_list pr_asnap "|" t.t_st) (pr_list pr_event "," t.t_evs)
+
+let run_case (oc : out_channel) (sc : out_channel option) (line : string) : unit =
   match List.map String.trim (split ';' line) with
   | [] -> ()
   | head :: steps ->
@@ -204,6 +214,9 @@ let run_case (oc : out_channel) (line : string) : unit =
                      (Some (n_of_string (String.sub t 5 (String.length t - 5))), rest)
                  | _ -> (None, toks) in
                let o = parse_op toks in
+               (match sc with
+                | Some sc -> Printf.fprintf sc "%s %d %s\n" id i (pr_track (spec_track c fuse o !w))
+                | None -> ());
                let r = run_step c fuse o !w in
                w := r.sr_world;
                Printf.fprintf oc "%s %d out=%s ret=%s len=%s cap=%s snap=%s ev=%s raw=%s\n"
@@ -218,10 +231,12 @@ let run_case (oc : out_channel) (line : string) : unit =
 let () =
   let ic = if Array.length Sys.argv > 1 then open_in Sys.argv.(1) else stdin in
   let oc = if Array.length Sys.argv > 2 then open_out Sys.argv.(2) else stdout in
+  let sc = if Array.length Sys.argv > 3 then Some (open_out Sys.argv.(3)) else None in
   (try
      while true do
        let line = input_line ic in
-       if String.length line > 0 && line.[0] <> '#' then run_case oc line
+       if String.length line > 0 && line.[0] <> '#' then run_case oc sc line
      done
    with End_of_file -> ());
+  (match sc with Some sc -> close_out sc | None -> ());
   close_out oc
